@@ -69,6 +69,7 @@ type c08MetaLike struct {
 
 var c08stats struct {
 	rt, rtWrapper, rtTyped, rtCarried, rtDeleted, rtFmtHigh, unwraps, reparses int64
+	rtKeyColon                                                                 int64
 	hostile, hostileOK, hostileErr, payloadMax                                 int64
 }
 
@@ -76,7 +77,7 @@ func init() {
 	props["C08"] = &propImpl{
 		shards: func(cfg vlib.Cfg) int { return cfg.N(8, 32) },
 		run:    runC08,
-		rule: "round trip: PRNG records = meta tuple (four int64 from {0,+-1,+-2^31,+-2^53,min,max} and PRNG values, both flags, deleted >0 / relative <0 / 0) x key (ASCII/UTF-8/colons/empty) x " +
+		rule: "round trip: PRNG records = meta tuple (four int64 from {0,+-1,+-2^31,+-2^53,min,max} and PRNG values, both flags, deleted >0 / relative <0 / 0) x key (compared with the original full key; database-key part ASCII/UTF-8/empty, with one or several ':' incl. leading/trailing/IPv6-like/host:port, and other separators) x " +
 			"{wrapped raw data with every format id 0..255 and payloads empty/1 byte/<=4KiB/64KiB, typed harness struct via Base.MarshalRecord, typed struct carried as JSON/CBOR/MsgPack}; " +
 			"hostile: every truncation, version byte 0..255, meta length prefix in {0,1,33..37,len-1..len+1,2^31,2^32,2^63-1,2^63,2^64-1,...}, every meta byte flipped five ways, meta format id 0..255, " +
 			"all one- and two-byte format varints, meta re-encoded as JSON/CBOR/MsgPack/YAML/GZIP, and PRNG strings <= 256 B (random / valid prefix + random tail / mutated valid encoding). " +
@@ -88,6 +89,7 @@ func init() {
 			r.Floor(r.Counter("roundtrips_typed_unwrapped") > 1000 && r.Counter("roundtrips_deleted") > 1000 && r.Counter("roundtrips_format_ge_128") > 500,
 				"typed=%d deleted=%d format>=128=%d", r.Counter("roundtrips_typed_unwrapped"), r.Counter("roundtrips_deleted"), r.Counter("roundtrips_format_ge_128"))
 			r.Floor(r.SeenCount("meta_section_formats_accepted") >= 5, "meta section formats accepted: %d", r.SeenCount("meta_section_formats_accepted"))
+			r.Floor(r.Counter("roundtrips_key_with_colon_in_db_key") > 1000, "roundtrips_key_with_colon_in_db_key=%d", r.Counter("roundtrips_key_with_colon_in_db_key"))
 			r.Assume("typed harness schema: valid UTF-8 strings, finite floats, integers of all widths, byte slices, slices, maps, pointer and nested struct (values a JSON document can carry)")
 			r.Assume("for deleted records the format identifier is not stored and therefore not compared; payloads above 64 KiB are not generated")
 		},
@@ -156,13 +158,29 @@ func c08Key(r *vlib.Rand) string {
 		db = c08String(r, 6)
 		db = strings.ReplaceAll(db, ":", "")
 	}
-	switch r.Intn(6) {
+	switch r.Intn(9) {
 	case 0:
 		return db + ":"
 	case 1:
 		return db + ":" + c08String(r, 40)
 	case 2:
 		return db + ":a:b::c:"
+	case 3, 4: // the database-key part itself contains ':' (IPv6 addresses, host:port, scopes ...)
+		return db + ":" + vlib.Pick(r, "intel/ipInfo/2001:db8::1", "tree/1234/udp-[::1]:53", "a:b", "a:b:c:d", ":leading", "trailing:", ":", "::", ":a:",
+			"::1", "fe80::1%eth0", "host.example:8080/path", "urn:uuid:6e8bc430-9c3a-11d9-9669-0800200c9a66", "k:世界:x", "a: b", "x::y")
+	case 5: // composed from parts and separators, one or several colons anywhere
+		n := r.Range(2, 5)
+		var sb strings.Builder
+		if r.Chance(1, 4) {
+			sb.WriteString(":")
+		}
+		for i := 0; i < n; i++ {
+			sb.WriteString(vlib.Pick(r, "a", "intel", "2001", "db8", "", "53", "[::1]", "ü", "p q"))
+			if i < n-1 || r.Chance(1, 4) {
+				sb.WriteString(vlib.Pick(r, ":", ":", "::", "/", "|", ";", ",", "#", "?", "=", "\\", " ", "\t", ":/", "/:"))
+			}
+		}
+		return db + ":" + sb.String()
 	default:
 		return db + ":" + vlib.Pick(r, "config/core/devMode", "k", "some/longer/key/with/many/parts", "世界/key", "a b", "../x")
 	}
@@ -376,6 +394,20 @@ func c08RoundTrip(c *ctx, seed, caseNo uint64) {
 		return d
 	}
 
+	// the key as the caller wrote it is the reference: database name = everything before
+	// the first ':', database key = everything after it (split here, not by portbase)
+	hdb, hkey, _ := strings.Cut(key, ":")
+	if strings.Contains(hkey, ":") {
+		c08stats.rtKeyColon++
+	}
+	keyKept := func(op string, r record.Record) bool {
+		if r.Key() == key && r.DatabaseName() == hdb && r.DatabaseKey() == hkey {
+			return true
+		}
+		b.Violation("C08:roundtrip-key:"+op, fmt.Sprintf("%s(%q) holds key %q (database %q, key %q)", op, key, r.Key(), r.DatabaseName(), r.DatabaseKey()), detail(nil))
+		return false
+	}
+
 	var src record.Record
 	var typed *c08Rec
 	var want c08Expect
@@ -397,7 +429,10 @@ func c08RoundTrip(c *ctx, seed, caseNo uint64) {
 			return
 		}
 		src = w
-		want = c08Expect{key: w.Key(), meta: meta, format: format, data: payload, deleted: deleted}
+		if !keyKept("NewWrapper", w) {
+			return
+		}
+		want = c08Expect{key: key, meta: meta, format: format, data: payload, deleted: deleted}
 		c08stats.rtWrapper++
 		if format >= 128 && !deleted {
 			c08stats.rtFmtHigh++
@@ -408,7 +443,10 @@ func c08RoundTrip(c *ctx, seed, caseNo uint64) {
 		typed.SetKey(key)
 		typed.SetMeta(meta)
 		src = typed
-		want = c08Expect{key: typed.Key(), meta: meta, format: dsd.JSON, deleted: deleted}
+		if !keyKept("SetKey", typed) {
+			return
+		}
+		want = c08Expect{key: key, meta: meta, format: dsd.JSON, deleted: deleted}
 		c08stats.rtTyped++
 	default: // typed struct carried in a wrapper in a binary or text format
 		path = "Wrapper+Unwrap"
@@ -425,7 +463,10 @@ func c08RoundTrip(c *ctx, seed, caseNo uint64) {
 		}
 		w, _ := record.NewWrapper(key, meta, format, dumped[1:])
 		src = w
-		want = c08Expect{key: w.Key(), meta: meta, format: format, data: dumped[1:], deleted: deleted}
+		if !keyKept("NewWrapper", w) {
+			return
+		}
+		want = c08Expect{key: key, meta: meta, format: format, data: dumped[1:], deleted: deleted}
 		c08stats.rtCarried++
 	}
 
@@ -446,7 +487,7 @@ func c08RoundTrip(c *ctx, seed, caseNo uint64) {
 			return
 		}
 	}
-	w2 := c08ParseBoth(c, "c08.rt", id, path, src.DatabaseName(), src.DatabaseKey(), stored, want)
+	w2 := c08ParseBoth(c, "c08.rt", id, path, hdb, hkey, stored, want)
 	if w2 == nil {
 		return
 	}
@@ -477,6 +518,9 @@ func c08RoundTrip(c *ctx, seed, caseNo uint64) {
 			switch {
 			case uerr != nil:
 				b.Violation("C08:roundtrip-unwrap-error:"+path, "Unwrap of the parsed record failed: "+uerr.Error(), detail(map[string]any{"stored_hex": hex.EncodeToString(trunc(stored, 400))}))
+				return
+			case fresh.Key() != key || fresh.DatabaseName() != hdb || fresh.DatabaseKey() != hkey:
+				b.Violation("C08:roundtrip-unwrap-key:"+path, fmt.Sprintf("the typed record unwrapped from the parsed stored form has key %q, the original key is %q", fresh.Key(), key), detail(nil))
 				return
 			case !reflect.DeepEqual(fresh, expect):
 				b.Violation("C08:roundtrip-unwrap-value:"+path, "the typed record unwrapped from the parsed stored form differs from the original",
@@ -792,6 +836,7 @@ func runC08(c *ctx) {
 	b.Count("roundtrips_typed", c08stats.rtTyped)
 	b.Count("roundtrips_typed_carried_in_wrapper", c08stats.rtCarried)
 	b.Count("roundtrips_deleted", c08stats.rtDeleted)
+	b.Count("roundtrips_key_with_colon_in_db_key", c08stats.rtKeyColon)
 	b.Count("roundtrips_format_ge_128", c08stats.rtFmtHigh)
 	b.Count("roundtrips_typed_unwrapped", c08stats.unwraps)
 	b.Count("reparses_of_parsed_records", c08stats.reparses)
